@@ -130,3 +130,41 @@ pub fn hull_case(cx: &mut Ctx, n: u64, case: &Value) {
         other => cx.bad("C08", "mrr_contains_input", case, json!({"got": format!("{other:?}")})),
     }
 }
+
+/// C08 on large inputs: record the rings returned for seeded random lattice multisets; Trace_Hull.tla judges them.
+pub fn record(w: &mut dyn std::io::Write, seed: u64, n_events: usize) {
+    use rand::{rngs::StdRng, seq::SliceRandom, Rng, SeedableRng};
+    let mut rng = StdRng::seed_from_u64(seed ^ 0xC08);
+    for k in 0..n_events {
+        let n = match k % 4 { 0 => rng.gen_range(8..20), 1 => rng.gen_range(20..60), 2 => rng.gen_range(60..400), _ => rng.gen_range(3..8) };
+        let span = match k % 3 { 0 => 6, 1 => 20, _ => 60 };          // small spans: many duplicates and collinear runs
+        let style = k % 5;
+        let mut pts: Vec<Coord<f64>> = (0..n).map(|_| {
+            let (x, y) = match style {
+                0 | 1 => (rng.gen_range(0..=span), rng.gen_range(0..=span)),
+                2 => { let t = rng.gen_range(0..=span); (t, if rng.gen_bool(0.5) { 0 } else { span }) }                        // two parallel runs
+                3 => { let x = rng.gen_range(0..=span); (x, rng.gen_range(0..=span - x)) }                                  // lattice triangle
+                _ => { let t = rng.gen_range(0..=span); (t, t) }                                                          // all collinear
+            };
+            Coord { x: x as f64, y: y as f64 }
+        }).collect();
+        pts.shuffle(&mut rng);
+        let ints = |v: &[Coord<f64>]| -> Value { Value::Array(v.iter().map(|c| json!([c.x as i64, c.y as i64])).collect()) };
+        let r = guard(|| {
+            let q = quick_hull(&mut pts.clone());
+            let g = graham_hull(&mut pts.clone(), false);
+            let c = MultiPoint::new(pts.iter().map(|c| Point(*c)).collect()).convex_hull().exterior().clone();
+            let l = LineString::new(pts.clone()).convex_hull().exterior().clone();
+            let qi = quick_hull(&mut pts.iter().map(|c| Coord { x: c.x as i64, y: c.y as i64 }).collect::<Vec<_>>());
+            (q, g, c, l, qi)
+        });
+        let ev = match r {
+            Ok((q, g, c, l, qi)) => json!({"pts": ints(&pts), "collinear": style == 4, "st": "ok", "rings": [
+                {"f": "quick_hull", "h": ints(&q.0)}, {"f": "graham_hull", "h": ints(&g.0)}, {"f": "MultiPoint::convex_hull", "h": ints(&c.0)},
+                {"f": "LineString::convex_hull", "h": ints(&l.0)}, {"f": "quick_hull<i64>", "h": Value::Array(qi.0.iter().map(|c| json!([c.x, c.y])).collect())}]}),
+            Err(e) => json!({"pts": ints(&pts), "collinear": style == 4, "st": format!("panic: {e}"), "rings": []}),
+        };
+        writeln!(w, "{ev}").unwrap();
+    }
+    w.flush().unwrap();
+}
